@@ -1,6 +1,7 @@
 #include <Eigen/Dense>
 #include <nano/program/solver.h>
 #include <nano/program/util.h>
+#include <nano/verif.h>
 
 using namespace nano;
 using namespace nano::program;
@@ -93,6 +94,7 @@ struct solver_t::program_t
             m_lmat.block(n, 0, p, n) = m_A.matrix();
         }
         m_lmat.block(n, n, p, p).array() = 0.0;
+        NANO_VERIF_TRACE("program.normalized", m_mufx, n, p, m(), m_Q, m_c, m_A, m_b, m_G, m_h);
     }
 
     tensor_size_t n() const { return m_c.size(); }
@@ -281,6 +283,8 @@ solver_state_t solver_t::solve_with_inequality(const program_t& program, const v
     // primal-dual interior-point solver...
     for (state.m_iters = 0; state.m_iters < max_iters; ++state.m_iters)
     {
+        NANO_VERIF_TRACE("program.iter", state.m_iters, miu, state.m_fx, state.m_eta, state.m_x, state.m_u, state.m_v,
+                         state.m_rdual, state.m_rprim, state.m_rcent);
         const auto prev_eta   = state.m_eta;
         const auto prev_rdual = state.m_rdual.lpNorm<2>();
         const auto prev_rprim = state.m_rprim.lpNorm<2>();
@@ -325,6 +329,7 @@ solver_state_t solver_t::solve_with_inequality(const program_t& program, const v
         }
 
         // backtracking line-search: stage 2
+        NANO_VERIF_TRACE("program.step", s, s0, state.m_x, state.m_u, dx, du, dv);
         const auto r0 = state.residual();
         for (iter = 0; iter < max_lsearch_iters; ++iter)
         {
@@ -407,6 +412,7 @@ solver_state_t solver_t::solve_without_inequality(const program_t& program, cons
     state.m_status =
         (valid && aprox) ? solver_status::converged : (!valid ? solver_status::failed : solver_status::unfeasible);
 
+    NANO_VERIF_TRACE("program.noineq", valid, aprox, state.m_fx, state.m_x, state.m_v, state.m_rdual, state.m_rprim);
     logger.info("[program]: ", state, ".\n");
     return state;
 }
@@ -414,6 +420,8 @@ solver_state_t solver_t::solve_without_inequality(const program_t& program, cons
 void solver_t::done(const program_t& program, solver_state_t& state, const scalar_t epsilon, const logger_t& logger)
 {
     const auto feasible = program.feasible(state);
+    NANO_VERIF_TRACE("program.done", epsilon, feasible, state.m_eta, state.m_rdual.lpNorm<2>(),
+                     state.m_rprim.lpNorm<2>(), state.m_fx, state.m_x, state.m_u, state.m_v);
 
     if (feasible && std::max({state.m_eta, state.m_rdual.lpNorm<2>(), state.m_rprim.lpNorm<2>()}) < epsilon)
     {
